@@ -47,6 +47,8 @@ def generate(rng, n, tier, stats):
             a['flat'] = [rng.choice(pool) for _ in range(size)]
             pat = rng.choice(['none', 'none', 'some', 'slice', 'all'])
             if single and name == 'median': pat = rng.choice(['some', 'some', 'none'])
+            # ptp has no nan-aware numpy function: it goes through the masked-array wrapper, whose all-NaN slices must come back as NaN
+            if name == 'ptp' and not single: pat = rng.choice(['slice', 'slice', 'all', 'some', 'none'])
             stats['nan_pattern'][pat] += 1
             if pat == 'some': a['flat'] = [float('nan') if rng.random() < 0.25 else v for v in a['flat']]
             elif pat == 'slice' and nd >= 1:
@@ -56,7 +58,7 @@ def generate(rng, n, tier, stats):
             elif pat == 'all': a['flat'] = [float('nan')] * size
         elif dtype == 'i':
             a['flat'] = [rng.choice(range(-3, 6) if name != 'prod' else [1, 2, -1, 3, 0]) for _ in range(size)]
-        skipna = rng.random() < 0.5
+        skipna = rng.random() < (0.5 if name != 'ptp' else 0.75)
         if name in ('all', 'any') and skipna: skipna = False     # masked all/any of NaN: outside the modelled domain
         if dtype == 'b' and skipna: skipna = False
         form = rng.choice(['name', 'pos', 'none', 'tuple'])
